@@ -589,7 +589,8 @@ pub fn parent_main(prop: &PropDef, tier: Tier, seed: u64) -> i32 {
                         if let Some(chh) = ch.as_mut() {
                             let _ = chh.kill();
                         }
-                        if prop.id == "C03" {
+                        // non-termination is itself a violation where the statement forbids blocking/hanging
+                        if ["C03", "C08", "C09", "C18"].contains(&prop.id) {
                             violations.push(json!({"sub": v["sub"], "sig": "hang", "msg": "the case does not terminate (stalled for 30 s in the worker, then 60 s alone in a fresh process)", "input": v["input"], "render": "", "smallbuf": small}));
                         } else {
                             inconclusive = true;
